@@ -114,6 +114,56 @@ def tilted_pupil(n0, n1, kx, ky):
     return np.exp(2j * np.pi * (ky * ax(n0)[:, None] / n0 + kx * ax(n1)[None, :] / n1))
 
 
+def geom_sum(N, t):
+    """sum_{j=-N//2}^{N-1-N//2} exp(2 pi i j t), complex, in closed form: exp(2 pi i c t) sin(pi N t)/sin(pi t) with the centre
+    of the index range c = (N-1)/2 - N//2 (0 for odd N, -1/2 for even N)"""
+    t = np.asarray(t, dtype=float)
+    m = np.round(t)
+    tr = t - m
+    small = np.abs(tr) < 1e-6
+    den = np.where(small, 1.0, np.sin(np.pi * tr))
+    ratio = np.where(small, N * (1 - (N * N - 1) * (np.pi * tr) ** 2 / 6), np.sin(np.pi * N * tr) / den)
+    sign = np.where(np.mod(m * (N - 1), 2) == 0, 1.0, -1.0)        # sin(pi N (m+tr))/sin(pi (m+tr)) = (-1)^(m(N-1)) sin(pi N tr)/sin(pi tr)
+    c = (N - 1) / 2 - N // 2
+    return sign * ratio * np.exp(2j * np.pi * c * t)
+
+
+def fringe_pupil(n0, n1, kx, ky):
+    """REAL pupil: cos of the tilt phase = half the sum of the +k and the -k tilted pupils (k = 0: the uniform pupil)"""
+    return np.cos(2 * np.pi * (ky * ax(n0)[:, None] / n0 + kx * ax(n1)[None, :] / n1))
+
+
+def fringe_modulus(n0, n1, dxp, wvl, efl, kx, ky, X, Y, amp):
+    """|focal field| of fringe_pupil: two spots at +-(kx, ky) lam f/D adding coherently; amp = 2-D amplitude prefactor"""
+    u = np.asarray(X, dtype=float) * dxp / (wvl * efl)
+    v = np.asarray(Y, dtype=float) * dxp / (wvl * efl)
+    plus = geom_sum(n0, ky / n0 - v) * geom_sum(n1, kx / n1 - u)
+    minus = geom_sum(n0, -ky / n0 - v) * geom_sum(n1, -kx / n1 - u)
+    return amp * np.abs(0.5 * (plus + minus))
+
+
+DTYPES = {'c128': np.complex128, 'f64': np.float64, 'f32': np.float32, 'c64': np.complex64}
+DT_ORDER = ['c128', 'f64', 'f32', 'c64']
+EPS32_FACTOR = float(np.finfo(np.float32).eps / EPS)
+# pupil inputs besides the complex128 tilted pupil: the same in complex64, and the real fringe in every dtype
+PUPIL_VARIANTS = [['tilt', 'c64'], ['fringe', 'f64'], ['fringe', 'f32'], ['fringe', 'c128'], ['fringe', 'c64']]
+
+
+def tol_factor(dt):
+    """tolerance by input dtype: single precision inputs are transformed (czt, numpy fft) in single precision"""
+    return EPS32_FACTOR if dt in ('f32', 'c64') else 1.0
+
+
+def in_tag(dt):
+    return '' if dt == 'c128' else f':in={dt}'
+
+
+def pick(items, tier_all, offset, index):
+    """thorough: every item; quick: one item, rotating with the running index so that every (configuration, item) pair of the
+    product is met across neighbouring configurations"""
+    return list(items) if tier_all else [items[(offset + index) % len(items)]]
+
+
 def tol_for(n0, n1, amp, extent):
     """k * eps * cond: cond = sum of |terms| (n0*n1*amp) times the largest phase argument (~ 2 pi extent) whose rounding
     the sum inherits; extent = largest |t|*N over the grid, at least 1"""
@@ -197,7 +247,7 @@ def run_fixed_focus(case, seed, R):
     tol = tol_for(n0, n1, amp, extent)
     cell = f'{sq(n0, n1)}:{shift_class(sh)}'
     samples_arg = so if so[0] != so[1] else so[0]
-    for kx, ky in TILTS:
+    for ti, (kx, ky) in enumerate(TILTS):
         p = tilted_pupil(n0, n1, kx, ky)
         want = focal_modulus(n0, n1, dxp, wvl, efl, kx, ky, X, Y, dxo)
         for method in ('mdft', 'czt'):
@@ -207,6 +257,23 @@ def run_fixed_focus(case, seed, R):
             if a is not None:
                 R.expect_close(np.abs(a), want, tol, sig,
                                f'|field| vs closed-form kernel centred at the physical spot ({kx}, {ky}) lam f/D, grid dx={dxo:.6g}um displaced by shift {sh} samples')
+            # quick tier: per tilt either one more input variant or the Wavefront-method path, alternating with the running
+            # index of the configuration (thorough: both, every variant)
+            alld, rot = case.get('all_dtypes'), case.get('rot', 0)
+            for kind, dt in (pick(PUPIL_VARIANTS, alld, rot // 2, ti // 2) if alld or (ti + rot) % 2 == 0 else []):
+                if kind == 'tilt':
+                    pv, wv = p.astype(DTYPES[dt]), want
+                else:
+                    pv = fringe_pupil(n0, n1, kx, ky).astype(DTYPES[dt])
+                    wv = fringe_modulus(n0, n1, dxp, wvl, efl, kx, ky, X, Y, amp)
+                sigv = sig + (':fringe' if kind == 'fringe' else '') + in_tag(dt)
+                got = R.call(propagation.focus_fixed_sampling, pv, dxp, efl, wvl, dxo, samples_arg, shift=s_units, method=method)
+                a = as_array(R, got, sigv)
+                if a is not None:
+                    R.expect_close(np.abs(a), wv, 2 * tol * tol_factor(dt), sigv,
+                                   f'|field| of the {dt} {kind} pupil ({kx}, {ky}) vs closed form (spots at +-k lam f/D adding coherently for the fringe)')
+            if not (alld or (ti + rot) % 2 == 1):
+                continue
             w = Wavefront(p.copy(), wvl, dxp, 'pupil')
             out = R.call(w.focus_fixed_sampling, efl, dxo, so, shift=s_units, method=method)
             if out is FAILED:
@@ -274,6 +341,21 @@ def run_fft_focus(case, seed, R):
         # the grids themselves step by the reported dx from an origin at n//2
         R.expect_close(cv[0], np.broadcast_to(ax(npad)[None, :] * dx, a.shape), 4 * EPS * npad * abs(dx), sig + ':coords', 'intensity.x vs (i - n//2) dx')
         R.expect_close(cv[1], np.broadcast_to(ax(npad)[:, None] * dx, a.shape), 4 * EPS * npad * abs(dx), sig + ':coords', 'intensity.y vs (i - n//2) dx')
+        # the other input dtypes / the real fringe pupil through the same route, judged on the same reported grid
+        amp2 = amp1 * amp1
+        for kind, dt in PUPIL_VARIANTS:
+            pv = (p if kind == 'tilt' else fringe_pupil(n, n, kx, ky)).astype(DTYPES[dt])
+            wv = want if kind == 'tilt' else fringe_modulus(n, n, dxp, wvl, efl, kx, ky, cv[0], cv[1], amp2)
+            sigv = sig + (':fringe' if kind == 'fringe' else '') + in_tag(dt)
+            o2 = R.call(Wavefront(pv, wvl, dxp, 'pupil').focus, efl, Q)
+            if o2 is FAILED:
+                continue
+            a2 = as_array(R, getattr(o2, 'data', None), sigv)
+            d2 = scalar(R, getattr(o2, 'dx', None), sigv + ':dx')
+            if a2 is None or d2 is None:
+                continue
+            R.expect(d2 == dx, sigv + ':dx', f'reported dx {d2} depends on the input dtype ({dx} for complex128)')
+            R.expect_close(np.abs(a2), wv, 2 * tol * tol_factor(dt), sigv, f'|field| of the {dt} {kind} pupil ({kx}, {ky}) vs closed form at the reported coordinates')
         # (b) the same spot through both fixed-sampling routes on the grid the FFT route reports
         for method in ('mdft', 'czt'):
             g = R.call(propagation.focus_fixed_sampling, p.copy(), dxp, efl, wvl, dx, npad, method=method)
@@ -337,10 +419,10 @@ def positions(n0, n1, every):
     return res
 
 
-def slope_checks(R, a, x0, y0, dxp_out, wvl, efl, amp, sig):
+def slope_checks(R, a, x0, y0, dxp_out, wvl, efl, amp, sig, tf=1.0):
     """phase slope per axis from ratios of neighbouring samples, unit-modulus pattern"""
     n0, n1 = a.shape
-    tol = 1e3 * EPS * max(1.0, (abs(x0) * n1 + abs(y0) * n0) * dxp_out / (wvl * efl))
+    tol = 1e3 * EPS * tf * max(1.0, (abs(x0) * n1 + abs(y0) * n0) * dxp_out / (wvl * efl))
     if not R.expect_close(np.abs(a), np.full(a.shape, amp), tol * amp, sig + ':modulus', 'a point source must un-focus to a uniform modulus'):
         return
     if n1 > 1:
@@ -358,37 +440,42 @@ def run_unfocus_fft(case, seed, R):
     wvl, efl, dxp = case['units']
     dxf = wvl * efl / (n * dxp)               # a focal grid that belongs to the pupil alphabet
     cell = f'{par(n)}:Q={"int" if float(Q).is_integer() else "frac"}' + (':threshold' if case.get('large') else '')
-    sig = f'Wavefront.unfocus:{cell}'
     pos = [(n // 2, n // 2), (0, 0), (n - 1, n // 3), (n // 3, n - 1)] if case.get('large') else positions(n, n, case['every'])
-    for (i, j) in pos:
-        d = np.zeros((n, n), dtype=complex)
-        d[i, j] = 1
+    for pi_, (i, j) in enumerate(pos):
         x0, y0 = (j - n // 2) * dxf, (i - n // 2) * dxf
-        w = Wavefront(d, wvl, dxf, 'psf')
-        out = R.call(w.unfocus, efl, Q)
-        if out is FAILED:
-            continue
-        a = as_array(R, getattr(out, 'data', None), sig)
-        dx = scalar(R, getattr(out, 'dx', None), sig + ':dx')
-        if a is None or dx is None:
-            continue
-        npad = a.shape[0]
-        if a.shape[0] != a.shape[1] or npad < n:
-            R.violation(sig + ':shape', f'pupil array {a.shape} from a square {n}x{n} focal array')
-            continue
-        amp = 1.0 / npad                          # unitary inverse FFT over npad x npad samples
-        R.expect(getattr(out, 'space', None) == 'pupil', sig + ':space', 'space of the result')
-        # slope per REPORTED pupil sample
-        slope_checks(R, a, x0, y0, dx, wvl, efl, amp, sig)
-        xp = ax(npad) * dx
-        want = amp * np.exp(2j * np.pi * (xp[None, :] * x0 + xp[:, None] * y0) / (wvl * efl))
-        R.expect_close(a, want, 1e3 * EPS * amp * (npad + 2), sig, f'pupil field of a point source at ({x0:.6g}, {y0:.6g})um vs exp(+2 pi i (x x0 + y y0)/(lam f)) on the reported grid dx={dx:.6g}mm')
-        # the reverse of the reverse: the reported pupil spacing focuses the tilt back onto the source sample
-        for method in ('mdft', 'czt'):
-            g = R.call(propagation.unfocus_fixed_sampling, d.copy(), dxf, efl, wvl, dx, npad, method=method)
-            g = as_array(R, g, f'unfocus-vs-{method}:{cell}')
-            if g is not None:
-                R.expect_close(g, a, 1e3 * EPS * amp * (npad + 2), f'unfocus-vs-{method}:{cell}', f'{method} at the reported pupil dx does not reproduce the FFT route')
+        # a point source is a REAL array as naturally as a complex one: every input dtype must give the same pupil tilt
+        for dt in pick(DT_ORDER, case.get('all_dtypes'), case.get('rot', 0), pi_):
+            tf = tol_factor(dt)
+            sig = f'Wavefront.unfocus:{cell}' + in_tag(dt)
+            d = np.zeros((n, n), dtype=DTYPES[dt])
+            d[i, j] = 1
+            w = Wavefront(d, wvl, dxf, 'psf')
+            out = R.call(w.unfocus, efl, Q)
+            if out is FAILED:
+                continue
+            a = as_array(R, getattr(out, 'data', None), sig)
+            dx = scalar(R, getattr(out, 'dx', None), sig + ':dx')
+            if a is None or dx is None:
+                continue
+            npad = a.shape[0]
+            if a.shape[0] != a.shape[1] or npad < n:
+                R.violation(sig + ':shape', f'pupil array {a.shape} from a square {n}x{n} focal array')
+                continue
+            amp = 1.0 / npad                          # unitary inverse FFT over npad x npad samples
+            R.expect(getattr(out, 'space', None) == 'pupil', sig + ':space', 'space of the result')
+            # slope per REPORTED pupil sample
+            slope_checks(R, a, x0, y0, dx, wvl, efl, amp, sig, tf)
+            xp = ax(npad) * dx
+            want = amp * np.exp(2j * np.pi * (xp[None, :] * x0 + xp[:, None] * y0) / (wvl * efl))
+            tol = 1e3 * EPS * amp * (npad + 2) * tf
+            R.expect_close(a, want, tol, sig, f'pupil field of a {dt} point source at ({x0:.6g}, {y0:.6g})um vs exp(+2 pi i (x x0 + y y0)/(lam f)) on the reported grid dx={dx:.6g}mm')
+            # the reverse of the reverse: the reported pupil spacing focuses the tilt back onto the source sample
+            for method in ('mdft', 'czt'):
+                sgm = f'unfocus-vs-{method}:{cell}' + in_tag(dt)
+                g = R.call(propagation.unfocus_fixed_sampling, d.copy(), dxf, efl, wvl, dx, npad, method=method)
+                g = as_array(R, g, sgm)
+                if g is not None:
+                    R.expect_close(g, want, 2 * tol, sgm, f'{method} at the reported pupil dx: pupil field of a {dt} point source at ({x0:.6g}, {y0:.6g})um vs closed form')
     R.nontrivial()
     R.outcome('unfocus_fft:' + cell)
 
@@ -407,40 +494,42 @@ def run_fixed_unfocus(case, seed, R):
     yp = ax(so[0]) * dxo - s_units[1]
     cell = f'{sq(n0, n1)}:{shift_class(sh)}'
     samples_arg = so if so[0] != so[1] else so[0]
-    for (i, j) in positions(n0, n1, case['every']):
+    for pi_, (i, j) in enumerate(positions(n0, n1, case['every'])):
         x0, y0 = (j - n1 // 2) * dxf, (i - n0 // 2) * dxf
         arg = 2 * np.pi * (xp[None, :] * x0 + yp[:, None] * y0) / (wvl * efl)
-        tol = 1e3 * EPS * amp * (2 + float(np.max(np.abs(arg))))
-        d = np.zeros((n0, n1), dtype=complex)
-        d[i, j] = 1
-        pair = np.zeros((n0, n1), dtype=complex)
-        pair[n0 // 2, n1 // 2] += 1
-        pair[i, j] += 1
-        for method in ('mdft', 'czt'):
-            sig = f'unfocus_fixed_sampling:{method}:{cell}'
-            if not shifted:
-                got = R.call(propagation.unfocus_fixed_sampling, d.copy(), dxf, efl, wvl, dxo, samples_arg, shift=s_units, method=method)
-                a = as_array(R, got, sig)
-                if a is not None and a.shape == so:
-                    slope_checks(R, a, x0, y0, dxo, wvl, efl, amp, sig)
-                    R.expect_close(a, amp * np.exp(1j * arg), tol, sig, f'pupil field of a point source at ({x0:.6g}, {y0:.6g})um on the requested grid dx={dxo:.6g}mm')
-                elif a is not None:
-                    R.violation(sig, f'shape {a.shape} != {so}')
-            # two sources (origin + (i,j)): modulus 2|cos(arg/2)| is tied to the pupil coordinates, hence to the shift
-            w = Wavefront(pair.copy(), wvl, dxf, 'psf')
-            out = R.call(w.unfocus_fixed_sampling, efl, dxo, so, shift=s_units, method=method)
-            if out is FAILED:
-                continue
-            sigw = 'Wavefront.' + sig
-            R.expect(getattr(out, 'dx', None) == dxo and getattr(out, 'space', None) == 'pupil', sigw + ':dx', 'reported dx / space')
-            a = as_array(R, getattr(out, 'data', None), sigw)
-            if a is None:
-                continue
-            want = amp * (1 + np.exp(1j * arg))
-            if shifted:
-                R.expect_close(np.abs(a), np.abs(want), 2 * tol, sigw, f'|pupil field| of two point sources (origin and ({x0:.6g}, {y0:.6g})um) vs 2|cos|, grid displaced by shift {sh} samples')
-            else:
-                R.expect_close(a, want, 2 * tol, sigw, f'pupil field of two point sources (origin and ({x0:.6g}, {y0:.6g})um)')
+        for dt in pick(DT_ORDER, case.get('all_dtypes'), case.get('rot', 0), pi_):
+            tf = tol_factor(dt)
+            tol = 1e3 * EPS * amp * (2 + float(np.max(np.abs(arg)))) * tf
+            d = np.zeros((n0, n1), dtype=DTYPES[dt])
+            d[i, j] = 1
+            pair = np.zeros((n0, n1), dtype=DTYPES[dt])
+            pair[n0 // 2, n1 // 2] += 1
+            pair[i, j] += 1
+            for method in ('mdft', 'czt'):
+                sig = f'unfocus_fixed_sampling:{method}:{cell}' + in_tag(dt)
+                if not shifted:
+                    got = R.call(propagation.unfocus_fixed_sampling, d.copy(), dxf, efl, wvl, dxo, samples_arg, shift=s_units, method=method)
+                    a = as_array(R, got, sig)
+                    if a is not None and a.shape == so:
+                        slope_checks(R, a, x0, y0, dxo, wvl, efl, amp, sig, tf)
+                        R.expect_close(a, amp * np.exp(1j * arg), tol, sig, f'pupil field of a {dt} point source at ({x0:.6g}, {y0:.6g})um on the requested grid dx={dxo:.6g}mm')
+                    elif a is not None:
+                        R.violation(sig, f'shape {a.shape} != {so}')
+                # two sources (origin + (i,j)): modulus 2|cos(arg/2)| is tied to the pupil coordinates, hence to the shift
+                w = Wavefront(pair.copy(), wvl, dxf, 'psf')
+                out = R.call(w.unfocus_fixed_sampling, efl, dxo, so, shift=s_units, method=method)
+                if out is FAILED:
+                    continue
+                sigw = 'Wavefront.' + sig
+                R.expect(getattr(out, 'dx', None) == dxo and getattr(out, 'space', None) == 'pupil', sigw + ':dx', 'reported dx / space')
+                a = as_array(R, getattr(out, 'data', None), sigw)
+                if a is None:
+                    continue
+                want = amp * (1 + np.exp(1j * arg))
+                if shifted:
+                    R.expect_close(np.abs(a), np.abs(want), 2 * tol, sigw, f'|pupil field| of two {dt} point sources (origin and ({x0:.6g}, {y0:.6g})um) vs 2|cos|, grid displaced by shift {sh} samples')
+                else:
+                    R.expect_close(a, want, 2 * tol, sigw, f'pupil field of two {dt} point sources (origin and ({x0:.6g}, {y0:.6g})um)')
     R.nontrivial()
     R.outcome(f'unfocus:{cell}')
 
@@ -643,6 +732,7 @@ def plan(tier, seed):
     shapes.sort(key=lambda s: (max(s), s[0] + s[1]))
     rs = lambda: reset_executors(64)   # noqa
     hdepth = 4 if quick else 5
+    DT_RULE = ' Input dtype alphabet: besides the complex128 tilted pupil, the complex64 tilted pupil and the REAL fringe pupil cos(tilt phase) (k=0: the uniform real pupil) as float64 / float32 / complex128 / complex64, judged by the coherent two-spot closed form; point sources as float64 / float32 / complex128 / complex64 arrays (thorough: every dtype for every configuration; quick: one per source position and one per second tilt -- alternating with the Wavefront-method path --, rotating with the running index; every dtype on shapes <= 2); tolerance by input dtype.'
 
     def keep(ci, small):
         # quick tier: the full product on the smallest shapes, every 7th cell of the product elsewhere (by running index;
@@ -657,18 +747,19 @@ def plan(tier, seed):
                 for form in SAMP:
                     for sh in SHIFTS:
                         ci += 1
-                        if keep(ci, max(s) <= 4):
-                            ff_cases.append({'n': s, 'units': u, 'dxrel': rel, 'samp': form, 'shift': sh})
-                            fu_cases.append({'n': s, 'units': u, 'dxrel': rel, 'samp': form, 'shift': sh, 'every': not quick})
+                        if keep(ci, max(s) <= 3):
+                            alld = (not quick) or max(s) <= 2
+                            ff_cases.append({'n': s, 'units': u, 'dxrel': rel, 'samp': form, 'shift': sh, 'rot': ci % 20, 'all_dtypes': alld})
+                            fu_cases.append({'n': s, 'units': u, 'dxrel': rel, 'samp': form, 'shift': sh, 'every': not quick, 'rot': ci % 20, 'all_dtypes': alld})
     fft_cases = [{'n': n, 'Q': Q, 'units': u} for n in NS for Q in QS for u in UNITS]
     ns_cases = [{'n': s, 'Q': Q, 'units': u} for s in shapes if s[0] != s[1] for Q in QS for u in UNITS]
-    uf_cases = [{'n': n, 'Q': Q, 'units': u, 'every': True} for n in NS for Q in QS for u in UNITS]
+    uf_cases = [{'n': n, 'Q': Q, 'units': u, 'every': True, 'rot': (n + QS.index(Q) + UNITS.index(u)) % 4, 'all_dtypes': not quick} for n in NS for Q in QS for u in UNITS]
     # threshold alphabet for the FFT route: sizes whose padded length ceil(N Q) has a prime factor >= 13 (where an FFT
     # backend's preferred lengths differ from the requested one) next to smooth neighbours, a few larger ones
     NL = [11, 12, 13, 16, 17, 19, 23, 26, 29, 31, 37, 64, 65, 67] + ([] if quick else [43, 47, 53, 97, 101]) + [127, 130]
-    big_cases = [{'n': n, 'Q': Q, 'units': u, 'large': True, 'every': False} for n in NL for Q in (1, 2, 1.5) for u in (UNITS[0], UNITS[7])]
+    big_cases = [{'n': n, 'Q': Q, 'units': u, 'large': True, 'every': False, 'rot': (n + int(2 * Q)) % 4, 'all_dtypes': not quick} for n in NL for Q in (1, 2, 1.5) for u in (UNITS[0], UNITS[7])]
     cv_cases = [{'n': n, 'units': u} for n in range(1, 28) for u in UNITS]
-    thin = ' (quick: full product on shapes <= 4, every 7th cell of the product elsewhere)' if quick else ''
+    thin = ' (quick: full product on shapes <= 3, every 7th cell of the product elsewhere)' if quick else ''
     return [
         ScopeUnit('conversions', cv_cases, run_conversions,
                   'every N in [1..27] (covers every padded size ceil(N Q)) x lam {0.5,1} x f {100,37.5} x dx {0.1,0.25}: pupil_sample_to_psf_sample and '
@@ -676,13 +767,13 @@ def plan(tier, seed):
         ScopeUnit('fft_focus', fft_cases, run_fft_focus,
                   f'square pupils N in [2..9] x Q in {QS} x 8 unit sets; inside every case all {len(TILTS)} tilts (0; k in {TILTS1} waves on x, on y, on both with different k per axis): '
                   'Wavefront.focus -> |field| and intensity vs the closed-form Dirichlet kernel at the coordinates intensity.x/.y it reports (amplitude not derived from the reported dx), '
-                  'grids vs reported dx, and both fixed-sampling methods at the reported dx reproduce the FFT field', reset=rs),
+                  'grids vs reported dx, and both fixed-sampling methods at the reported dx reproduce the FFT field; every pupil input variant of the dtype alphabet for every tilt.' + DT_RULE, reset=rs),
         ScopeUnit('fft_nonsquare', ns_cases, run_fft_nonsquare,
                   'non-square pupils in [2..9]^2 x Q x units: only the necessary conditions (reported dx is the true spacing of one axis; focus then unfocus(Q=1) reports the pupil dx again)', reset=rs),
         ScopeUnit('fixed_focus', ff_cases, run_fixed_focus,
                   f'pupil shapes [2..9]^2 (square and non-square) x 8 unit sets x requested dx in {DXRELS} x native x samples_out in {SAMP} (per axis) x shift in {SHIFTS} output samples (x,y){thin}; '
                   f'inside every case all {len(TILTS)} tilts x {{mdft, czt}} x {{function, Wavefront method}}: |field| vs closed-form kernel centred at k lam f/D_axis on the requested grid '
-                  'displaced by the shift (function) and on the reported intensity.x/.y grids (method)', reset=rs),
+                  'displaced by the shift (function) and on the reported intensity.x/.y grids (method).' + DT_RULE, reset=rs),
         ScopeUnit('fft_threshold', big_cases, run_fft_focus,
                   f'threshold alphabet: square pupils N in {NL} x Q in {{1,2,1.5}} x 2 unit sets x tilts {TILTS_LARGE}: the same closed form at the reported coordinates, '
                   'whatever size the route pads to, and both fixed-sampling methods at the reported dx; not closed over the tilt dimension', reset=rs),
@@ -690,11 +781,11 @@ def plan(tier, seed):
                   'the same threshold alphabet through Wavefront.unfocus with point sources at the origin, a corner and two generic positions', reset=rs),
         ScopeUnit('unfocus_fft', uf_cases, run_unfocus_fft,
                   'focal arrays N in [2..9] x Q x units x EVERY point-source position: Wavefront.unfocus -> uniform modulus, phase slope per axis per reported pupil sample, full field vs '
-                  'exp(+2 pi i (x x0 + y y0)/(lam f)) on the reported grid; both fixed-sampling methods at the reported pupil dx reproduce it', reset=rs),
+                  'exp(+2 pi i (x x0 + y y0)/(lam f)) on the reported grid; both fixed-sampling methods at the reported pupil dx give the same closed form.' + DT_RULE, reset=rs),
         ScopeUnit('fixed_unfocus', fu_cases, run_fixed_unfocus,
                   f'focal shapes [2..9]^2 x units x requested pupil dx in {DXRELS} x dx_p x samples_out x shift{thin}; inside: point-source positions (every position in the thorough tier; quick: '
                   'the two axes through the origin and both diagonals) x {mdft, czt}: unshifted single source -> slope per axis + full complex field; origin + source pair through the Wavefront method -> '
-                  'complex field (unshifted) or modulus 2|cos| displaced by the shift', reset=rs),
+                  'complex field (unshifted) or modulus 2|cos| displaced by the shift.' + DT_RULE, reset=rs),
         HistoryUnit('coords_history', [{'n': 4, 'Q': 2}, {'n': 5, 'Q': 1}, {'n': 3, 'Q': 1.5}], h_fresh, h_events, h_apply, h_check, h_canon, hdepth,
                     f'BFS to depth {hdepth} over events [focus:A, focus:B (same shape and dx, other tilt), focus:C (other shape), fixed:A (same grid through focus_fixed_sampling), '
                     'read:first / read:last (.intensity.x/.y of a held result handed to the caller), edit-in-place (the caller re-references and rescales the arrays it was handed)]; '
